@@ -7,6 +7,7 @@ import (
 	"bufio"
 	"fmt"
 	"io"
+	"os"
 	"os/exec"
 	"strconv"
 	"strings"
@@ -71,6 +72,10 @@ func (s *Solver) start() error {
 	}
 	s.in = in
 	s.out = bufio.NewReaderSize(out, 1<<16)
+	if d := os.Getenv("VERIF_SMTLOG"); d != "" && s.log == nil {
+		f, _ := os.Create(fmt.Sprintf("%s/solver-%d.smt2", d, s.cmd.Process.Pid))
+		s.log = f
+	}
 	s.preamble()
 	return nil
 }
@@ -208,6 +213,9 @@ func (s *Solver) Check() satResult {
 		line := s.readLine()
 		if s.log != nil {
 			fmt.Fprintln(s.log, "; ->", line)
+		}
+		if s.log != nil && time.Since(t0) > 500*time.Millisecond {
+			fmt.Fprintf(s.log, "; SLOW %.2fs\n", time.Since(t0).Seconds())
 		}
 		switch {
 		case line == "sat":
